@@ -5,6 +5,13 @@
 #![allow(clippy::all, dead_code)]
 
 use super::*;
+// explicit imports: do not rely on what the parent module happens to import
+#[allow(unused_imports)]
+use std::sync::Arc;
+#[allow(unused_imports)]
+use std::net::IpAddr;
+#[allow(unused_imports)]
+use std::net::SocketAddr;
 use crate::source::Reach;
 use crate::time_types::PollInterval;
 use serde_json::{Value, json};
@@ -71,10 +78,23 @@ fn verif_system() {
                 }
                 used.push((id, ty));
             }
-            let got = mgr.update_used_sources(used.into_iter());
+            let got = mgr.update_used_sources(used.clone().into_iter());
             let seen = mgr.observe();
+            // the sources report again (other strata); the same selection is published once more
+            let mut then = Value::Null;
+            if let Some(l2) = c["then"]["list"].as_array() {
+                for (i, s) in l2.iter().enumerate() {
+                    if used[i].1 == SourceType::Ntp && s["snap"].as_bool().unwrap() {
+                        mgr.source_snapshots.lock().unwrap().insert(used[i].0, snap(s["stratum"].as_u64().unwrap() as u8, 0x6E74_7000 + i as u32 + 1));
+                    }
+                }
+                let got2 = mgr.update_used_sources(used.clone().into_iter());
+                let seen2 = mgr.observe();
+                then = json!({"stratum": got2.stratum, "ref": ref_name(got2.reference_id),
+                              "observe_same": seen2.stratum == got2.stratum && seen2.reference_id == got2.reference_id});
+            }
             json!({"prev": {"stratum": prev.stratum, "ref": ref_name(prev.reference_id)},
-                   "stratum": got.stratum, "ref": ref_name(got.reference_id),
+                   "stratum": got.stratum, "ref": ref_name(got.reference_id), "then": then,
                    "observe_same": seen.stratum == got.stratum && seen.reference_id == got.reference_id})
         });
         let mut fields: Vec<String> = vec![];
@@ -95,6 +115,17 @@ fn verif_system() {
                 }
                 if o["observe_same"] != json!(true) {
                     fields.push("out.observe".into());
+                }
+                if !c["then"].is_null() {
+                    if o["then"]["stratum"] != c["then"]["expect"]["stratum"] {
+                        fields.push("out.then.stratum".into());
+                    }
+                    if o["then"]["ref"] != c["then"]["expect"]["ref"] {
+                        fields.push("out.then.ref".into());
+                    }
+                    if o["then"]["observe_same"] != json!(true) {
+                        fields.push("out.then.observe".into());
+                    }
                 }
                 o
             }
